@@ -154,8 +154,8 @@ func (c *RepoCache) Pull(remote string) error {
 }
 
 func (c *RepoCache) SetUserIdentity(i *IdentityCache) error {
-	c.muUserIdentity.RLock()
-	defer c.muUserIdentity.RUnlock()
+	c.muUserIdentity.Lock()
+	defer c.muUserIdentity.Unlock()
 
 	// Make sure that everything is fine
 	if _, err := c.identities.Resolve(i.Id()); err != nil {
